@@ -26,8 +26,8 @@ structure Diag where
   line : Nat
   c1 : Nat
   c2 : Nat
-  so : Nat      -- the byte range of the package (what `utf16_span` needs to put `c1`, `c2` on the wire in UTF-16 units)
-  eo : Nat
+  pkg : PkgInfo   -- the package it is about (what `generate_diagnostics` needs to put `c1`, `c2` on the wire: the range
+                  -- narrowed to the version text, in UTF-16 units)
 deriving Repr, DecidableEq
 
 inductive Msg
@@ -88,7 +88,7 @@ def diagnose (s : Srv) (reg : String) (pkgs : List PkgInfo) : List Diag :=
   | some m =>
     pkgs.filterMap fun p =>
       (Checker.diagFor m (readsOf s ⟨reg.toList, p.name⟩) p.version).map fun (sev, msg) =>
-        ⟨sev, msg, p.line, p.column, p.column + p.endOffset - p.startOffset, p.startOffset, p.endOffset⟩
+        ⟨sev, msg, p.line, p.column, p.column + p.endOffset - p.startOffset, p⟩
 
 def setDoc (docs : List (Text × List PkgInfo)) (uri : Text) (pkgs : List PkgInfo) : List (Text × List PkgInfo) :=
   (uri, pkgs) :: docs.filter (·.1 != uri)
@@ -185,10 +185,12 @@ def close (s : Srv) (uri : Text) : Srv :=
 
 def textOf0 (texts : List (Text × Text)) (uri : Text) : Text := ((texts.find? (·.1 == uri)).map (·.2)).getD []
 
-/-- a diagnostic as it goes on the wire: `generate_diagnostics` replaces the byte columns by UTF-16 columns computed from
-    the text it was given (when the package's offsets fit that text) -/
+/-- a diagnostic as it goes on the wire: `generate_diagnostics` narrows the range to the version text inside the token
+    (`version_text_range`; the token itself when the version text does not occur in it) and replaces the byte columns by
+    UTF-16 columns computed from the text it was given (when the offsets fit that text) -/
 def wireDiag (content : Text) (d : Diag) : Diag :=
-  match Pos.utf16Span content d.c1 d.so d.eo with
+  let q := (Bump.locateBytes content d.pkg).getD d.pkg
+  match Pos.utf16Span content q.column q.startOffset q.endOffset with
   | some (c, w) => { d with c1 := c, c2 := c + w }
   | none => d
 
